@@ -63,3 +63,7 @@ Definition F_inst (f : fname) (args : list value) : option value :=
 
 Definition eval_inst := eval F_inst binop_inst.
 Definition run_inst := run F_inst binop_inst.
+
+(* result, variables, event, metadata (without the target log), for examples *)
+Definition run_core (es : list expr) (s : state) :=
+  let '(o, s') := run_inst es s in (o, vars s', ev s', md s').
